@@ -489,7 +489,7 @@ pub mod shim {
             use ::std::cell::RefCell;
             use ::std::collections::VecDeque;
             use ::std::rc::Rc;
-            pub use ::std::sync::mpsc::{RecvError, SendError};
+            pub use ::std::sync::mpsc::{RecvError, RecvTimeoutError, SendError, TryRecvError};
             struct Chan<T> {
                 queues: RefCell<Vec<VecDeque<T>>>,
             }
@@ -534,6 +534,23 @@ pub mod shim {
                     let q = self.ch.queues.borrow();
                     (0..q.len()).filter(|&i| !q[i].is_empty()).collect()
                 }
+                /// Non-blocking receive: lets stored tasks make progress first, like a real
+                /// scheduler could.
+                pub fn try_recv(&self) -> Result<T, TryRecvError> {
+                    use super::super::super::{background, with_host};
+                    background(false);
+                    let nonempty = self.nonempty();
+                    if nonempty.is_empty() {
+                        return Err(TryRecvError::Empty);
+                    }
+                    let k = with_host(|h| h.pick_deliver(&nonempty)).unwrap_or(0);
+                    let i = nonempty[k.min(nonempty.len() - 1)];
+                    Ok(self.ch.queues.borrow_mut()[i].pop_front().unwrap())
+                }
+                /// There is no clock in the simulation: behaves like `recv`.
+                pub fn recv_timeout(&self, _d: ::std::time::Duration) -> Result<T, RecvTimeoutError> {
+                    self.recv().map_err(|_| RecvTimeoutError::Disconnected)
+                }
                 pub fn recv(&self) -> Result<T, RecvError> {
                     use super::super::super::{background, with_host, Op};
                     let _ = with_host(|h| h.point(Op::Recv, "", false));
@@ -563,6 +580,9 @@ pub mod shim {
             pub fn new() -> Self {
                 HashSet(Vec::new())
             }
+            pub fn with_capacity(n: usize) -> Self {
+                HashSet(Vec::with_capacity(n))
+            }
             pub fn insert(&mut self, t: T) -> bool {
                 if self.0.contains(&t) {
                     false
@@ -570,6 +590,50 @@ pub mod shim {
                     self.0.push(t);
                     true
                 }
+            }
+            pub fn contains(&self, t: &T) -> bool {
+                self.0.contains(t)
+            }
+            pub fn remove(&mut self, t: &T) -> bool {
+                match self.0.iter().position(|x| x == t) {
+                    Some(i) => {
+                        self.0.remove(i);
+                        true
+                    }
+                    None => false,
+                }
+            }
+            pub fn len(&self) -> usize {
+                self.0.len()
+            }
+            pub fn is_empty(&self) -> bool {
+                self.0.is_empty()
+            }
+            pub fn clear(&mut self) {
+                self.0.clear()
+            }
+            /// insertion order (a stable order a caller may not rely on with the real HashSet)
+            pub fn iter(&self) -> ::std::slice::Iter<'_, T> {
+                self.0.iter()
+            }
+        }
+        impl<T: PartialEq> Default for HashSet<T> {
+            fn default() -> Self {
+                HashSet::new()
+            }
+        }
+        impl<T: PartialEq> Extend<T> for HashSet<T> {
+            fn extend<I: IntoIterator<Item = T>>(&mut self, iter: I) {
+                for t in iter {
+                    self.insert(t);
+                }
+            }
+        }
+        impl<T: PartialEq> FromIterator<T> for HashSet<T> {
+            fn from_iter<I: IntoIterator<Item = T>>(iter: I) -> Self {
+                let mut s = HashSet::new();
+                s.extend(iter);
+                s
             }
         }
         impl<T> IntoIterator for HashSet<T> {
